@@ -126,6 +126,16 @@ def exhaustive_plan(quick):
     plan.append(("E7-tall-t4", 2 if quick else 4,
                  dict(ops=tset(["del"]), maxkey=34, handles=tset([1, 2]), ophandles=tset([2]), opkeys="<- SimKeys",
                       loads="LoadTall4", initts=tset([4]), shared=tset([True]), maxhist=1 if quick else 2)))
+    # E8: deletes of MISSING keys and failing delete_exact right where a merge at the root is possible
+    #     (a root of one key over two leaves that are minimal or one delete away from it), on a COW clone
+    plan.append(("E8-missing-key-deletes-at-root", 2 if quick else 6,
+                 dict(ops=tset(["del", "delx"]), maxkey=7, handles=tset([1, 2]), ophandles=tset([2]), opkeys="<- SimKeys",
+                      loads="LoadRootMerge", shared=tset([True]), maxhist=2 if quick else 3,
+                      delforms=tset(["item", "key", "discard"]))))
+    plan.append(("E8b-missing-key-deletes-at-root-t4", 2 if quick else 6,
+                 dict(ops=tset(["del", "delx"]), maxkey=9, handles=tset([1, 2]), ophandles=tset([2]), opkeys="<- SimKeys",
+                      loads="LoadRootMerge4", initts=tset([4]), shared=tset([True]), maxhist=2,
+                      delforms=tset(["key", "discard"]))))
     return plan
 
 
@@ -146,13 +156,51 @@ def coverage_analysis():
     return c19cov.Analysis(fn, exclude_funcs=("_visit_preorder_by_node",), unreachable_lines=unreachable)
 
 
+def _resolved_obs(ev, i, h):
+    """Full observation of handle h at event index i (0-based), following a {"ref": j}."""
+    if i < 0 or i >= len(ev) or "obs" not in ev[i]:
+        return None
+    o = ev[i]["obs"][h - 1]
+    if o.get("ref"):
+        o = ev[o["ref"] - 1]["obs"][h - 1]
+    return o
+
+
 def classify(tr, line, clause):
+    """Case signature of a rejected trace (matched against known_findings.json)."""
     ev = tr["ev"]
     e = ev[line - 1] if line and 0 < line <= len(ev) else {}
     if not e and ev and ev[-1].get("op") == "driver-error":
         d = ev[-1]
         return "NoReturn:%s:%s:%s:%s" % (d.get("exc"), d.get("during", {}).get("op", "?"), d.get("during", {}).get("form", "-"), tr.get("cls"))
+    # F35 (fixed in /repo 7f4dc0b): a delete that removes NOTHING (missing key, or delete_exact with an
+    # element that is not the stored one) leaves an internal root with 0 keys over its single merged child.
+    # Specific: this very event is such a delete, its handle's content did not change, and the ONLY defect
+    # of the logged shape is the empty internal root (the child below is a well-formed root of its own).
+    if clause == "WellFormed" and e.get("op") in ("del", "delx"):
+        h = e["h"]
+        now = _resolved_obs(ev, line - 1, h)
+        before = _resolved_obs(ev, line - 2, h)
+        if now and before and now.get("live") and before.get("live"):
+            removed_nothing = now["keys"] == before["keys"] and (
+                (e["op"] == "del" and e["k"] not in before["keys"]) or
+                (e["op"] == "delx" and (not e["same"] or e["k"] not in before["keys"])))
+            sh = now["shape"]
+            empty_internal_root = len(sh[0]) == 0 and len(sh[1]) == 1
+            if removed_nothing and empty_internal_root and _flat(sh[1][0]) == now["keys"]:
+                return "F35:internal-root-left-empty-after-delete-of-missing-key"
     return "%s:%s:%s:%s:%s" % (clause, e.get("op", "?"), e.get("form", e.get("kind", "-")), tr.get("cls"), e.get("exc", ""))
+
+
+def _flat(n):
+    if not n[1]:
+        return list(n[0])
+    out = []
+    for i, c in enumerate(n[1]):
+        out += _flat(c)
+        if i < len(n[0]):
+            out.append(n[0][i])
+    return out
 
 
 def shape_stats(traces, stats):
@@ -345,9 +393,7 @@ def run(ctx):
     ctx.extra["btree_py_coverage_all"] = ana.report(arcs)
     ctx.extra["btree_py_coverage_rebalancing_and_cursor"] = ana.report(arcs, REBALANCE_FUNCS)
     ctx.extra["reach"] = stats
-    ctx.extra["observation_keyless_root"] = (
-        "%d logged shapes had a key-less internal root over one child (left by deleting an absent key; tolerated, "
-        "see BTreeMap.tla RootNonEmpty)" % stats.get("keyless_root_over_one_child", 0))
+    ctx.extra["keyless_internal_roots_logged"] = stats.get("keyless_root_over_one_child", 0)
     for tr, line, clause in all_rejects:
         sig = classify(tr, line, clause)
         e = tr["ev"][line - 1] if line else {}
